@@ -3,7 +3,9 @@ import Firebolt.Spec.Config
 namespace Firebolt.Config
 open Firebolt
 
-def tyOf (c : Char) : Option Ty := if c == 'A' then some .A else if c == 'B' then some .B else if c == 'E' then some .E else none
+def tyOf (c : Char) : Option Ty :=
+  if c == 'A' then some .A else if c == 'B' then some .B else if c == 'E' then some .E
+  else if c == 'Y' then some .Y else if c == 'Z' then some .Z else if c == 'I' then some .I else none
 
 /-- the harness registry: node type `t_<c>_<p>` consumes c, produces p (N = sink); source `s_<p>`; anything else unregistered -/
 def harnessRegistry : Registry :=
